@@ -477,6 +477,8 @@ class RadialProfile(ProfileBase):
         mask = radii <= max_radius
         radii = radii[mask]
         data_values = self.data[yidx[mask], xidx[mask]]
+        if self.unit is not None:
+            data_values <<= self.unit
 
         return radii, data_values
 
